@@ -154,7 +154,7 @@ fn run_bars(ctx: &Ctx) -> Report {
     par_run(jobs, ctx.threads, move |idx, rep| {
         let mut rng = Rng::derive(seed, 0xC02B, *idx as u64);
         let len = rng.range(30, maxlen);
-        let bars: Vec<Bar> = if idx % 7 == 6 && !amzn.is_empty() {
+        let bars: Vec<Bar> = if idx % 8 == 7 && !amzn.is_empty() {
             // realistic seed, tiled with a slowly drifting perturbation
             (0..len)
                 .map(|i| {
